@@ -37,6 +37,9 @@ func init() {
 func runC15Child(ctx *Ctx) {
 	st := memory.New()
 	mgr := balance.PayPerInterval(st, time.Minute, big.NewInt(1000))
+	if os.Getenv("VERIF_C15_MIN") != "" {
+		mgr.MinBalance, _ = new(big.Int).SetString(os.Getenv("VERIF_C15_MIN"), 10)
+	}
 	p := pool.New(st, mgr)
 	recv := map[string]interface{}{"p": p,
 		"payment":   &payment.PaymentService{NonceStore: st, AccountStore: st, BalanceStore: st, WithdrawMin: big.NewInt(5)},
@@ -252,8 +255,9 @@ type c15Child struct {
 	stderr     bytes.Buffer
 }
 
-func startC15Child(ctx *Ctx) *c15Child {
+func startC15Child(ctx *Ctx, env ...string) *c15Child {
 	cmd := exec.Command(os.Args[0], "c15child", "-repo", ctx.Repo)
+	cmd.Env = append(os.Environ(), env...)
 	out, _ := cmd.StdoutPipe()
 	ch := &c15Child{cmd: cmd, exited: make(chan struct{})}
 	cmd.Stderr = &ch.stderr
@@ -609,6 +613,95 @@ func c15Signed(ctx *Ctx, i int, rng *rand.Rand) {
 	ctx.Emit(Case{I: i, Kind: "signed", Desc: map[string]interface{}{"steps": step}, Monitor: mon})
 }
 
+// c15Withheld: a host reads the pool's own calls (vipnode_disconnect after a client ran out of
+// balance, vipnode_whitelist for a peer request) and never answers them.  Requests of other
+// nodes on other connections must keep being answered meanwhile.
+func c15Withheld(ctx *Ctx, i int) {
+	ch := startC15Child(ctx, "VERIF_C15_MIN=0")
+	defer ch.stop()
+	host, err := dialRaw(ch.tcp)
+	if err != nil {
+		fatal("dial: %v", err)
+	}
+	cli, _ := dialRaw(ch.tcp)
+	other, _ := dialRaw(ch.tcp)
+	var mon []string
+	nonce := time.Now().UnixNano()
+	signed := func(name, method string, args ...interface{}) string {
+		nonce++
+		id := nodeIDOf(name)
+		sig, err := request.Sign(keyFor(name), method, id, nonce, args...)
+		if err != nil {
+			fatal("sign: %v", err)
+		}
+		b, _ := json.Marshal(append([]interface{}{sig, id, nonce}, args...))
+		return string(b)
+	}
+	reg := func(rc *rawConn, name string, full bool, uri string) {
+		rc.send(fmt.Sprintf(`{"id":1,"method":"vipnode_connect","params":%s}`, signed(name, "vipnode_connect",
+			pool.ConnectRequest{VipnodeVersion: "x", NodeInfo: ethnode.UserAgent{Kind: ethnode.Geth, IsFullNode: full}, NodeURI: uri})))
+		rc.next(3 * time.Second)
+	}
+	reg(host, "h1", true, "enode://"+nodeIDOf("h1")+"@10.0.0.1:30303")
+	reg(other, "h2", true, "enode://"+nodeIDOf("h2")+"@10.0.0.2:30303")
+	reg(cli, "c1", false, "")
+	var notes []string
+	// waitCall reads the host connection until the pool's call arrives, and does not answer it
+	waitCall := func(method string) bool {
+		deadline := time.Now().Add(3 * time.Second)
+		for time.Now().Before(deadline) {
+			m, err := host.next(time.Until(deadline))
+			if err != nil || m == nil {
+				return false
+			}
+			if string(m["method"]) == `"`+method+`"` {
+				return true
+			}
+		}
+		return false
+	}
+	// bystander: h2's keep-alive on its own connection must be answered promptly
+	bystander := func(what string, id int) {
+		other.send(fmt.Sprintf(`{"id":%d,"method":"vipnode_update","params":%s}`, id, signed("h2", "vipnode_update", pool.UpdateRequest{BlockNumber: uint64(id)})))
+		t0 := time.Now()
+		deadline := t0.Add(1500 * time.Millisecond)
+		for time.Now().Before(deadline) {
+			m, err := other.next(time.Until(deadline))
+			if err != nil || m == nil {
+				break
+			}
+			if string(m["id"]) == fmt.Sprint(id) {
+				notes = append(notes, fmt.Sprintf("%s: bystander answered in %s", what, time.Since(t0).Round(time.Millisecond)))
+				return
+			}
+		}
+		mon = append(mon, fmt.Sprintf("c15-other-connection-stalled: while a host withholds its reply to the pool's %s, the keep-alive of another host on another connection was not answered within 1.5 s", what))
+	}
+	// (1) the client runs below the minimum: the pool tells its host to disconnect it
+	time.Sleep(200 * time.Millisecond)
+	cli.send(fmt.Sprintf(`{"id":5,"method":"vipnode_update","params":%s}`, signed("c1", "vipnode_update", pool.UpdateRequest{PeerInfo: []ethnode.PeerInfo{{ID: nodeIDOf("h1")}}, BlockNumber: 1})))
+	if waitCall("vipnode_disconnect") {
+		bystander("vipnode_disconnect call", 50)
+	} else {
+		notes = append(notes, "the pool did not call vipnode_disconnect (client not below the minimum?)")
+	}
+	// (2) a peer request makes the pool call vipnode_whitelist on the host
+	if len(mon) == 0 {
+		cli2, _ := dialRaw(ch.tcp)
+		reg(cli2, "c2", false, "")
+		cli2.send(fmt.Sprintf(`{"id":6,"method":"vipnode_peer","params":%s}`, signed("c2", "vipnode_peer", pool.PeerRequest{Num: 2})))
+		if waitCall("vipnode_whitelist") {
+			bystander("vipnode_whitelist call", 51)
+		} else {
+			notes = append(notes, "the pool did not call vipnode_whitelist")
+		}
+	}
+	if !ch.alive() {
+		mon = append(mon, fmt.Sprintf("c15-process-died: the serving process exited: %s", panicLine(ch.stderr.String())))
+	}
+	ctx.Emit(Case{I: i, Kind: "withheld-replies", Desc: map[string]interface{}{"notes": notes}, Monitor: mon})
+}
+
 func runC15(ctx *Ctx) {
 	per := ctx.N(120, 1500)
 	cases := ctx.N(6, 60)
@@ -638,6 +731,9 @@ func runC15(ctx *Ctx) {
 	}
 	if ctx.Want(cases + 1) {
 		c15Signed(ctx, cases+1, ctx.Sub(cases+1))
+	}
+	if ctx.Want(cases + 2) {
+		c15Withheld(ctx, cases+2)
 	}
 	_ = context.Background
 	_ = rand.Int
